@@ -2,6 +2,6 @@
 # usage: probe_one.sh <worktree> <diff> <prop> [dumpdir]  — apply a diff to a scratch worktree, run one check quietly, undo
 wt=$1; diff=$2; prop=$3; dump=${4:-}
 cd "$wt" && git apply "$diff" || exit 2
-if [ -n "$dump" ]; then mkdir -p "$dump"; /verif/bin/ruxcheck -property "$prop" -repo "$wt" -verif /verif -quiet-evidence -dump-normalised "$dump" 2>&1 | grep -v conda | cut -c1-400
-else /verif/bin/ruxcheck -property "$prop" -repo "$wt" -verif /verif -quiet-evidence 2>&1 | grep -v conda | cut -c1-400; fi
+if [ -n "$dump" ]; then mkdir -p "$dump"; ${RUXCHECK:-/verif/bin/ruxcheck} -property "$prop" -repo "$wt" -verif /verif -quiet-evidence -dump-normalised "$dump" 2>&1 | grep -v conda | cut -c1-400
+else ${RUXCHECK:-/verif/bin/ruxcheck} -property "$prop" -repo "$wt" -verif /verif -quiet-evidence 2>&1 | grep -v conda | cut -c1-400; fi
 git apply -R "$diff"
